@@ -427,7 +427,7 @@ theorem addRemote_spec (a : Agent) (c : Cand) (hi : InvA a) :
           have h2 := this.2
           simp only [Cand.taEqual, Bool.and_eq_true, beq_iff_eq] at h2
           rw [hnet, haddr]
-          exact ⟨h2.1.1, h2.2.1.2⟩
+          exact ⟨h2.1.1, h2.2.2⟩
       have hrub := ((InvC_iff a).mp hic).2.2.1
       have hne : ∀ old ∈ replaced, c2.uid ≠ old.uid := by
         intro old ho
